@@ -5,7 +5,7 @@ use std::{
 };
 
 use fxhash::FxBuildHasher;
-use parking_lot::RwLock;
+use parking_lot::{Mutex, RwLock};
 use qbice_stable_hash::Compact128;
 use qbice_storage::intern::Interned;
 use scc::hash_map::Entry;
@@ -107,15 +107,31 @@ pub enum Mode {
     Unordered,
 }
 
+/// The requests an executor has made for one callee. An executor may ask for
+/// the same callee several times at once (`join!`/`select!` over one key);
+/// only the first request registers the callee, and the registration must
+/// outlive every request that is still running or has completed.
+#[derive(Debug, Default, Clone, Copy)]
+struct CalleeRequests {
+    /// requests that have neither completed nor been cancelled
+    in_flight: usize,
+    /// a request has completed: the registration stays
+    kept: bool,
+}
+
 #[derive(Debug, Default)]
 pub struct ComputingForwardEdges {
     pub callee_queries:
         scc::HashMap<QueryID, Option<Observation>, FxBuildHasher>,
     pub callee_order: RwLock<CalleeOrder>,
+    requests: Mutex<HashMap<QueryID, CalleeRequests, FxBuildHasher>>,
 }
 
 impl QueryComputing {
     pub fn register_calee(&self, callee: &QueryID) {
+        let mut requests = self.callee_info.requests.lock();
+        requests.entry(*callee).or_default().in_flight += 1;
+
         if self.callee_info.callee_queries.contains_sync(callee) {
             return;
         }
@@ -139,7 +155,35 @@ impl QueryComputing {
         self.callee_info.callee_order.write().end_unordered_group();
     }
 
+    /// A request for `callee` has completed: its registration is kept, no
+    /// matter what happens to the other requests for the same callee.
+    pub fn keep_callee(&self, callee: &QueryID) {
+        let mut requests = self.callee_info.requests.lock();
+
+        if let Some(request) = requests.get_mut(callee) {
+            request.in_flight = request.in_flight.saturating_sub(1);
+            request.kept = true;
+        }
+    }
+
+    /// A request for `callee` has been cancelled: the registration is undone
+    /// only if no other request for the same callee is running or has
+    /// completed.
     pub fn abort_callee(&self, callee: &QueryID) {
+        let mut requests = self.callee_info.requests.lock();
+
+        let Some(request) = requests.get_mut(callee) else {
+            return;
+        };
+
+        request.in_flight = request.in_flight.saturating_sub(1);
+
+        if request.in_flight > 0 || request.kept {
+            return;
+        }
+
+        requests.remove(callee);
+
         assert!(self.callee_info.callee_queries.remove_sync(callee).is_some());
 
         let mut callee_order = self.callee_info.callee_order.write();
@@ -148,6 +192,7 @@ impl QueryComputing {
     }
 
     pub fn clear_dependencies(&self) {
+        self.callee_info.requests.lock().clear();
         self.callee_info.callee_queries.clear_sync();
         self.callee_info.callee_order.write().clear();
     }
@@ -536,6 +581,7 @@ impl<C: Config, Q: Query> Snapshot<C, Q> {
                     FxBuildHasher::default(),
                 ),
                 callee_order: RwLock::new(CalleeOrder::default()),
+                requests: Mutex::default(),
             },
 
             query_kind,
